@@ -135,8 +135,9 @@ def run(ctx):
                 while rv[0] in ('cast', 'conv'):
                     rv = rv[2]
                 assoc.add((tuple(sorted(lists[-1])), rv))
-        want = {(tuple(sorted(TRUE_W)), ('bool', True)), (tuple(sorted(FALSE_W)), ('bool', False))}
-        ctx.check(assoc == want, 'R2', 'parse_bool: yes/on/true/1 give true, no/off/false/0 give false', where(pb[0]), 'word list -> value: %s' % sorted((a, ex.pretty(b)) for a, b in assoc), key='R2|parse_bool|values')
+        okassoc = bool(assoc) and all((rv_ == ('bool', True) and set(l_) & TRUE_W and not set(l_) & FALSE_W) or (rv_ == ('bool', False) and set(l_) & FALSE_W and not set(l_) & TRUE_W) for l_, rv_ in assoc) and \
+            TRUE_W <= set(w for l_, rv_ in assoc if rv_ == ('bool', True) for w in l_) and FALSE_W <= set(w for l_, rv_ in assoc if rv_ == ('bool', False) for w in l_)
+        ctx.check(okassoc, 'R2', 'parse_bool: yes/on/true/1 give true, no/off/false/0 give false', where(pb[0]), 'word list -> value: %s' % sorted((a, ex.pretty(b)) for a, b in assoc), key='R2|parse_bool|values')
     else:
         ctx.unrecognised('R2', 'parse_bool: %d definitions' % len(pb))
     pi = [f for f in P.fns.values() if 'ConfigType<int>::parse' in f['q'] and f.get('blocks')]
